@@ -65,4 +65,16 @@ TEXT = {
         "note": NOTE,
         "technique": "runtime monitor: algebraic-law assertions and reference-arithmetic comparison over exhaustive grids and boundary residues, in overflow-checked and unchecked builds",
     },
+    "C14": {
+        "level": "Exploration by runtime monitoring: every order, dtree, dtree-derived vtree and vtree-manager table the library produces for generated CNFs / trees is inspected structurally and compared with the definition recomputed by the harness; all vtree shapes on <= 6 leaves, all node pairs for lca, and all elimination orders for small CNFs are enumerated.",
+        "design_ref": "DESIGN.md section 4, C14",
+        "note": NOTE,
+        "technique": "runtime monitor: structural invariant checkers against definitions recomputed from the input (orders, dtree var sets and cutsets, vtree index/lca/prime tables)",
+    },
+    "C15": {
+        "level": "Exploration by runtime monitoring: CNF utilities, partial-model / variable-set bookkeeping and the residual hasher are driven with generated inputs and operation histories and compared with set-theoretic reference models (truth tables, HashMap/HashSet, exact sums, residual families).",
+        "design_ref": "DESIGN.md section 4, C15",
+        "note": NOTE,
+        "technique": "runtime monitor: reference-model comparison (truth table, map/set models, exact brute-force sum) and a functional-dependency checker hash<->residual over push/decide/pop histories",
+    },
 }
